@@ -5,7 +5,7 @@ for name in "$@"; do
   mut=$(mktemp -d /tmp/st-XXXXXX)
   cp -r /repo/sc3 /repo/tests /repo/pyproject.toml /repo/README.md "$mut"/
   (cd "$mut" && patch -p1 -s < "$out/patch.diff") || { echo "$name: patch failed"; rm -rf "$mut"; continue; }
-  (cd "$mut" && timeout 1500 /venv/bin/python -W ignore -m pytest -q -p no:cacheprovider --timeout=900 tests 2>&1 | grep -E "^FAILED|^ERROR|passed|failed" ) > "$out/tests_mutant.txt" 2>&1
+  (cd "$mut" && timeout 1500 unshare -n sh -c 'ip link set lo up; exec "$@"' sh /venv/bin/python -W ignore -m pytest -q -p no:cacheprovider --timeout=900 tests 2>&1 | grep -E "^FAILED|^ERROR|passed|failed" ) > "$out/tests_mutant.txt" 2>&1
   grep -E "^FAILED|^ERROR" "$out/tests_mutant.txt" | sed 's/ - .*//' | sort > "$out/tests_failing.txt"
   n=$(wc -l < "$out/tests_failing.txt")
   same=$(diff -q "$out/tests_failing.txt" /verif/seeded/BASELINE_FAILING.txt >/dev/null 2>&1 && echo same || echo DIFFERENT)
